@@ -46,11 +46,11 @@ DEVIATIONS = {
 
 def base_consts(quick):
     return dict(MaxL=4 if quick else 5, MaxCS=3, Ws="{1, 2, 3}", Pres='{"absent", "old", "foreign", "file", "noparent"}',
-                Faults="{0, 1, 2}" if quick else "{0, 1, 2, 3}", Wheres='{"reader", "worker", "writer"}')
+                Faults="{0, 1, 2}" if quick else "{0, 1, 2, 3}", Wheres='{"reader", "worker", "writer"}', Kills='{"none", "init", "get"}')
 
 
 def cfg_key(c):
-    return (c["L"], c["CS"], c["W"], str(c["Pre"]), bool(c["Ow"]), c["FaultChunk"], bool(c["EmptyCentre"]), str(c["Where"]))
+    return (c["L"], c["CS"], c["W"], str(c["Pre"]), bool(c["Ow"]), c["FaultChunk"], bool(c["EmptyCentre"]), str(c["Where"]), str(c["Kill"]))
 
 
 def model(ctx):
@@ -62,8 +62,8 @@ def model(ctx):
     for act, (d, t) in res.coverage.items():
         ctx.require(t > 0 or act in ("Next",), f"CreatePipeline action {act} never taken (vacuous)")
     allowed = {}
-    for c, outcome, loaded, dirstate, ids in res.printed("done"):
-        allowed.setdefault(cfg_key(c), set()).add((str(outcome), str(loaded), str(dirstate), bool(ids)))
+    for c, outcome, loaded, dirstate, ids, killed in res.printed("done"):
+        allowed.setdefault(cfg_key(c), set()).add((str(outcome), str(loaded), str(dirstate), bool(ids), bool(killed)))
     cex = {}
     small = dict(consts, MaxL=3)
     for dev, expect in DEVIATIONS.items():
@@ -115,8 +115,9 @@ def judge(ctx, c, fault, mode, res, proj, exp_new, allowed):
     variant = "seq" if W == 1 else "mp"
     pre, ow = str(c["Pre"]), bool(c["Ow"])
     path_err = pre == "noparent" or (pre != "absent" and not ow) or (ow and pre in ("foreign", "file"))
-    faulty = c["FaultChunk"] > 0 or c["EmptyCentre"] or c["L"] < 2 or path_err  # L = 1: centre 0 gets no record
-    fclass = ("fault=" + (fault or "none")) + ("+empty_centre" if (c["EmptyCentre"] or c["L"] < 2) else "")
+    killed = bool(res.get("killed"))
+    faulty = c["FaultChunk"] > 0 or c["EmptyCentre"] or c["L"] < 2 or path_err or killed  # L = 1: centre 0 gets no record
+    fclass = ("fault=" + (fault or ("writer_killed_" + str(c["Kill"]) if killed else "none"))) + ("+empty_centre" if (c["EmptyCentre"] or c["L"] < 2) else "")
     pclass = f"pre={pre},overwrite={ow}"
     detail = dict(scenario=dict(c), fault=fault, mode=mode, projection=proj,
                   error=repr(res.get("error")), waiting=str(res.get("waiting")), reopen_error=res.get("reopen_error"))
@@ -148,7 +149,7 @@ def judge(ctx, c, fault, mode, res, proj, exp_new, allowed):
     if not bad:
         # cross-check with the model: the projection must be a terminal state of the ideal design
         al = allowed.get(cfg_key(c))
-        if al is not None and proj not in al:
+        if al is not None and tuple(proj) + (killed,) not in al:
             ctx.drift("C09|outcome_satisfies_property_but_differs_from_model", dict(detail, model_allows=sorted(al)))
 
 
@@ -167,19 +168,19 @@ def run(ctx) -> None:
     # stratify: every (W-class, Pre, Ow, fault?, empty) class at least twice
     buckets = {}
     for k in keys:
-        L, CS, W, pre, ow, fc, ec, wh = k
+        L, CS, W, pre, ow, fc, ec, wh, kl = k
         # chunk position of the fault: none / first / middle / last
         nc = -(-L // CS)
         pos = "none" if not fc else ("only" if nc == 1 else "first" if fc == 1 else "last" if fc == nc else "middle")
-        buckets.setdefault((min(W, 2), pre, ow, pos if wh != "reader" or pre == "absent" else min(fc, 1), ec, wh), []).append(k)
+        buckets.setdefault((min(W, 2), pre, ow, pos if wh != "reader" or pre == "absent" else min(fc, 1), ec, wh, kl), []).append(k)
     per = 2 if quick else 8
     chosen = [k for b in buckets.values() for k in b[:per]]
     with scratch("c09_") as root:
         n = 0
         traces, metas, tinfo = [], [], []
         for k in chosen:
-            L, CS, W, pre, ow, fc, ec, wh = k
-            c = dict(L=L, CS=CS, W=W, Pre=pre, Ow=ow, FaultChunk=fc, EmptyCentre=ec, Where=wh)
+            L, CS, W, pre, ow, fc, ec, wh, kl = k
+            c = dict(L=L, CS=CS, W=W, Pre=pre, Ow=ow, FaultChunk=fc, EmptyCentre=ec, Where=wh, Kill=kl)
             variants = [("apply", None)]
             if fc and wh != "reader":
                 variants = [("apply", "injected_" + wh)] + ([("divide", "injected_" + wh)] if not ec else [])
@@ -193,8 +194,9 @@ def run(ctx) -> None:
                 nsched = 1 if W == 1 else (3 if quick else 8)
                 for s in range(nsched):
                     n += 1
+                    kill = None if kl == "none" else "init" if kl == "init" else ("get", rng.randrange(0, -(-L // CS) * W + 2))
                     res = pipeline.run_creation(yaw, root / f"r{n}", L=L, CS=CS, W=W, pre=pre, overwrite=ow, fault=fault,
-                                                fault_chunk=fc, empty_centre=ec, mode=mode, seed=rng.randrange(1 << 30), where=wh)
+                                                fault_chunk=fc, empty_centre=ec, mode=mode, seed=rng.randrange(1 << 30), where=wh, kill=kill)
                     exp_new = pipeline.expected_records(pipeline.input_frame(L), ec)
                     proj = classify(yaw, c, res, exp_new)
                     ctx.evaluated(1, (k, mode, fault, s) if (fc or ec or pre != "absent" or W > 1) else None)
@@ -209,7 +211,7 @@ def run(ctx) -> None:
         trace_validation(ctx, traces, metas, tinfo)
         # depth-first over ALL schedules of the smallest multiprocessing scenarios
         for (L, CS, W, fc, wh) in [(2, 1, 2, 0, "reader"), (2, 1, 2, 2, "reader"), (3, 2, 2, 1, "reader"), (2, 1, 2, 2, "worker"), (2, 1, 2, 1, "writer")]:
-            c = dict(L=L, CS=CS, W=W, Pre="absent", Ow=False, FaultChunk=fc, EmptyCentre=False, Where=wh)
+            c = dict(L=L, CS=CS, W=W, Pre="absent", Ow=False, FaultChunk=fc, EmptyCentre=False, Where=wh, Kill="none")
             count = {"n": 0}
 
             def once(ch, c=c, fc=fc, wh=wh):
@@ -241,7 +243,8 @@ def trace_validation(ctx, traces, metas, tinfo):
         return
     consts = dict(base_consts(ctx.quick), Deviations="{}")
     # binding demonstration: corrupted copies of a multi-worker trace must be rejected
-    donor = next((i for i, t in enumerate(traces) if sum(bool(e["ev"] == "put" and e.get("recs")) for e in t) >= 2), None)
+    donor = next((i for i, t in enumerate(traces) if sum(bool(e["ev"] == "put" and e.get("recs")) for e in t) >= 2
+                  and t[-1]["outcome"] == "success" and metas[i]["cfg"]["Kill"] == "none"), None)
     ctx.require(donor is not None, "no multi-worker trace with two non-empty puts recorded")
     bad1 = [dict(e) for e in traces[donor]]
     for e in bad1:                      # a record silently dropped from a part
